@@ -98,6 +98,9 @@ vector<GlobalGraph::Edge> GlobalGraph::unlink(Graph::NodeId nodeA, Graph::NodeId
   // unlinking in the structure
   vector<GlobalGraph::Edge> deletedEdges; // what edges ID are affected by this unlinking
   deletedEdges.push_back(unlinkInNodeStructure_(nodeA, nodeB));
+  // an undirected relation is stored in both directions (see link)
+  if (!directed_ && nodeA != nodeB)
+    unlinkInNodeStructure_(nodeB, nodeA);
 
   for (auto& currEdgeToDelete : deletedEdges)
   {
